@@ -433,7 +433,12 @@ fn rejected_calls(cfg: &Cfg, rng: &mut Rng) {
     let mut maxqs = vec![1u64, 2, 8, 255, 256];
     maxqs.push(rng.range(1, 300));
     for maxq in maxqs {
-        for i in [maxq, maxq + 1, maxq * 2 + 7, 0x7fff_ffff, usize::MAX as u64] {
+        // (also indexes whose low 8 / 16 / 32 bits name an existing queue: a narrowing cast before the
+        // range check would let them through)
+        for i in [maxq, maxq + 1, maxq * 2 + 7, 0x7fff_ffff, usize::MAX as u64, 1 << 8, (1 << 8) + (maxq - 1), 1 << 16, (1 << 16) + (maxq - 1), 1 << 32, (1 << 32) + (maxq - 1), (1 << 32) + 1, (7 << 40) + (maxq - 1), 1 << 63] {
+            if i < maxq {
+                continue;
+            }
             let i = i as usize;
             for op in [
                 FeOp::SetVringNum(i, 8),
